@@ -133,13 +133,100 @@ Lemma is_respecting_location_example :
   /\ is_respecting ex_model ex_circ [0; 2] false = false /\ coupled ex_model 1 0 = true.
 Proof. repeat split; reflexivity. Qed.
 
-(* placeholders are gates for is_compatible: a barrier (gate id 9, not in the model) makes it answer False *)
-Definition strip (ph : nat -> bool) (c : circ) : circ :=
-  {| cw := cw c; crad := crad c; cops := filter (fun o => negb (ph (og o))) (cops c) |}.
-Lemma is_compatible_placeholder_refuted :
+(* ---- placeholders (repo commit 3be8a2b, finding C02-F5 repaired) --------------------------------------------- *)
+(* Before that commit is_compatible (the definition above, which knows no placeholders) was the code for every
+   circuit: a barrier made it answer False although the circuit without the barrier is executable. *)
+Lemma is_compatible_placeholder_old_refuted :
   let c := {| cw := 2; crad := [2; 2]; cops := [{| og := 0; oloc := [0; 1] |}; {| og := 9; oloc := [0; 1] |}] |} in
-  is_compatible ex_model c None = Some false /\ spec ex_model (strip (Nat.eqb 9) c) [0; 1] = true.
-Proof. split; reflexivity. Qed.
+  is_compatible ex_model c None = Some false /\ spec ex_model (strip (Nat.eqb 9) c) [0; 1] = true
+  /\ is_compatible_ph (Nat.eqb 9) ex_model c None = Some true.
+Proof. repeat split; reflexivity. Qed.
+
+Lemma existsb_filter_and : forall (A : Type) (p q : A -> bool) (l : list A),
+  existsb q (filter p l) = existsb (fun x => p x && q x) l.
+Proof.
+  intros A p q l. induction l as [|x l IH]; simpl; [reflexivity|].
+  destruct (p x); simpl; rewrite IH; reflexivity.
+Qed.
+
+Lemma filter_no_ph : forall (ph : nat -> bool) (l : list op),
+  existsb (fun o => ph (og o)) l = false -> filter (fun o => negb (ph (og o))) l = l.
+Proof.
+  intros ph l. induction l as [|x l IH]; simpl; [reflexivity|].
+  intros H. apply orb_false_iff in H. destruct H as [H1 H2]. rewrite H1. simpl. rewrite (IH H2). reflexivity.
+Qed.
+
+Lemma forallb_filter_weaken : forall (A : Type) (p q : A -> bool) (l : list A),
+  forallb q l = true -> forallb q (filter p l) = true.
+Proof.
+  intros A p q l. induction l as [|x l IH]; simpl; [reflexivity|].
+  intros H. apply andb_true_iff in H. destruct H as [H1 H2].
+  destruct (p x); simpl; [rewrite H1; simpl|]; apply IH; exact H2.
+Qed.
+
+Lemma wf_circ_strip : forall ph c, wf_circ c = true -> wf_circ (strip ph c) = true.
+Proof.
+  intros ph c H. unfold wf_circ in *. apply andb_true_iff in H. destruct H as [H1 H2].
+  simpl. rewrite H2. rewrite (forallb_filter_weaken _ _ _ _ H1). reflexivity.
+Qed.
+
+(* the placeholder-aware code is the placeholder-free code applied to the circuit without its placeholders *)
+Theorem is_compatible_ph_strip : forall ph m c opl b,
+  is_compatible_ph ph m c opl = Some b -> is_compatible m (strip ph c) opl = Some b.
+Proof.
+  intros ph m c opl b H. unfold is_compatible_ph in H. unfold is_compatible.
+  change (cw (strip ph c)) with (cw c). change (crad (strip ph c)) with (crad c).
+  change (placement_of (strip ph c) opl) with (placement_of c opl).
+  destruct (mn m <? cw c); [exact H|].
+  change (cops (strip ph c)) with (filter (fun o => negb (ph (og o))) (cops c)).
+  rewrite existsb_filter_and.
+  destruct (existsb (fun o => negb (ph (og o)) && negb (gmem (og o) (mgates m))) (cops c)); [exact H|].
+  assert (Hpl : wf_pl m (strip ph c) (placement_of c opl) = wf_pl m c (placement_of c opl)) by reflexivity.
+  rewrite Hpl.
+  destruct (wf_pl m c (placement_of c opl)) eqn:Hwp; simpl in H |- *; [|discriminate H].
+  destruct (wf_circ c) eqn:Hwc; simpl in H; [|discriminate H].
+  rewrite (wf_circ_strip ph c Hwc). simpl.
+  assert (He : (if existsb (fun o => ph (og o)) (cops c) then circ_edges (strip ph c) else circ_edges c)
+               = circ_edges (strip ph c)).
+  { destruct (existsb (fun o => ph (og o)) (cops c)) eqn:Hex; [reflexivity|].
+    unfold circ_edges, strip. simpl. rewrite (filter_no_ph ph (cops c) Hex). reflexivity. }
+  rewrite He in H. exact H.
+Qed.
+
+(* C02's statement for the repaired code: the verdict is the independent check of the three conditions on the
+   circuit with its placeholders set aside, for every circuit, model, placement and placeholder set *)
+Theorem is_compatible_ph_spec : forall ph m c opl b,
+  is_compatible_ph ph m c opl = Some b -> b = spec m (strip ph c) (placement_of c opl).
+Proof.
+  intros ph m c opl b H. apply is_compatible_ph_strip in H.
+  exact (is_compatible_spec m (strip ph c) opl b H).
+Qed.
+
+Lemma is_compatible_ph_total : forall ph m c opl,
+  wf_pl m c (placement_of c opl) = true -> wf_circ c = true -> exists b, is_compatible_ph ph m c opl = Some b.
+Proof.
+  intros ph m c opl H1 H2. unfold is_compatible_ph. rewrite H1, H2. simpl.
+  repeat match goal with |- context [if ?x then _ else _] => destruct x end; eexists; reflexivity.
+Qed.
+
+(* without placeholders nothing changed *)
+Lemma is_compatible_ph_none : forall m c opl,
+  is_compatible_ph (fun _ => false) m c opl = is_compatible m c opl.
+Proof.
+  intros m c opl. unfold is_compatible_ph, is_compatible.
+  assert (H0 : existsb (fun o : op => false) (cops c) = false) by (induction (cops c); simpl; auto).
+  rewrite H0. simpl. reflexivity.
+Qed.
+
+(* a 3-qudit barrier over an uncoupled pair and a measurement do not make a line-executable circuit incompatible;
+   an uncoupled gate still does *)
+Lemma is_compatible_ph_example :
+  let ph := fun g => (g =? 8) || (g =? 9) in
+  let ops := [{| og := 0; oloc := [0; 1] |}; {| og := 9; oloc := [0; 1; 2] |}; {| og := 8; oloc := [2] |}] in
+  is_compatible_ph ph ex_model {| cw := 3; crad := [2; 2; 2]; cops := ops |} None = Some true
+  /\ is_compatible_ph ph ex_model {| cw := 3; crad := [2; 2; 2]; cops := ops ++ [{| og := 0; oloc := [0; 2] |}] |} None = Some false
+  /\ is_compatible_ph ph ex_model {| cw := 3; crad := [2; 2; 2]; cops := ops ++ [{| og := 0; oloc := [0; 2] |}] |} (Some [1; 0; 2]) = Some true.
+Proof. repeat split; reflexivity. Qed.
 
 (* ---- replace filters -------------------------------------------------------------------------------------- *)
 Theorem replace_filter_sound : forall m fully new old loc fn,
